@@ -254,10 +254,16 @@ func (w *Walker) instr(in ssa.Instruction, c *FCtx, fl *Flow, facts Facts, path 
 		if cc.IsInvoke() {
 			name = methodShort(cc.Method)
 			args = append([]*Term{c.Term(cc.Value)}, c.args(cc.Args)...)
+			if v, ok := in.(ssa.Value); ok {
+				args = c.freeze(v, args)
+			}
 			callees = w.dynCallees(in)
 		} else if f := cc.StaticCallee(); f != nil {
 			name = shortName(f)
 			args = c.args(cc.Args)
+			if v, ok := in.(ssa.Value); ok {
+				args = c.freeze(v, args)
+			}
 			if mc, ok := cc.Value.(*ssa.MakeClosure); ok {
 				bindings = c.args(mc.Bindings)
 			}
